@@ -45,27 +45,38 @@ def run(ctx):
                 okd = any(f is ni and ni.dominates(c["block"], pb) and pb not in ni.reachable([rej]) for f, c, rej in seen[lim])
                 ctx.check(okd, "DOM", "C08:DOM:push-after:%s" % lim.rsplit(".", 1)[-1], "the replay frame is pushed only after the %s check passed" % lim.rsplit(".", 1)[-1],
                           "a replay frame can be pushed without passing the %s check" % lim.rsplit(".", 1)[-1], config, ctx.where(ni, pb))
-        # per-anchor counter is incremented before it is compared (saturating), total with checked_add
-        inc_total = [b for b, t in ni.calls() if fx.callee(t) == "core::num::checked_add" and render(ni.sym_operand(t["args"][0])) == "self.total_replayed_events"]
-        ctx.check(len(inc_total) == 1 and ni.sym_operand(ni.blocks[inc_total[0]]["term"]["args"][1])[:2] == ("const", 1), "ARITH", "C08:ARITH:total:checked_add", "total replayed events is advanced by exactly 1 with checked_add",
+        # per-anchor counter is incremented before it is compared (saturating), total with checked_add.  The counting, the comparison
+        # and the budget re-observation may live in next_impl or in a helper of the event source in which they are unavoidable
+        # (rules.lifted): the rules below are stated over next_impl's blocks either way.
+        from ..rules import lifted, err_return_blocks
+        def is_inc_total(g, b, t):
+            return fx.callee(t) == "core::num::checked_add" and render(g.sym_operand(t["args"][0])) == "self.total_replayed_events"
+        direct_inc = [(g, b) for g in le_fns for b, t in g.calls() if is_inc_total(g, b, t)]
+        ctx.check(len(direct_inc) == 1 and direct_inc[0][0].sym_operand(direct_inc[0][0].blocks[direct_inc[0][1]]["term"]["args"][1])[:2] == ("const", 1), "ARITH", "C08:ARITH:total:checked_add", "total replayed events is advanced by exactly 1 with checked_add",
                   "total_replayed_events is no longer advanced by the constant 1 with exactly one checked_add", config, ctx.where(ni))
+        inc_total = lifted(fx, ni, is_inc_total, same_adt=LE)
         inc_per = [b for b, t in ni.calls() if fx.callee(t) in ("core::num::saturating_add", "core::num::checked_add") and _deep(ni, t["args"][0]).startswith(("self.per_anchor_expansions[", "index(self.per_anchor_expansions, "))]
         ctx.check(len(inc_per) == 1, "ARITH", "C08:ARITH:per-anchor:non-wrapping", "per-anchor counter is advanced with a non-wrapping add", "per_anchor_expansions is no longer advanced with one saturating/checked add", config, ctx.where(ni))
         for f, c, rej in seen["self.alias_limits.max_alias_expansions_per_anchor"]:
             ctx.check(bool(inc_per) and f.dominates(inc_per[0], c["block"]), "DOM", "C08:DOM:per-anchor:inc-before-compare", "the expansion is counted before it is compared",
                       "the per-anchor expansion count is compared before it is advanced (one extra expansion allowed)", config, ctx.where(f, c["block"]))
+        cmp_blocks = []
         for f, c, rej in seen["self.alias_limits.max_total_replayed_events"]:
-            ctx.check(bool(inc_total) and f.dominates(inc_total[0], c["block"]), "DOM", "C08:DOM:total:inc-before-compare", "the replayed event is counted before the comparison",
+            inc_here = [b for g, b in direct_inc if g is f]
+            ctx.check(bool(inc_here) and f.dominates(inc_here[0], c["block"]), "DOM", "C08:DOM:total:inc-before-compare", "the replayed event is counted before the comparison",
                       "the total is compared before it is advanced", config, ctx.where(f, c["block"]))
-            # every replayed return passes the comparison
-            okret = [b for b, i, adt, var, fl, ops, s_ in aggregates(ni) if adt.endswith("result::Result") and var == "Ok"]
-            ctx.check(must_pass(ni, inc_total, [c["block"]], to_blocks=okret), "DOM", "C08:DOM:total:before-delivery", "no replayed event is delivered without the total check",
-                      "a replayed event can be delivered without passing the total-replayed check", config, ctx.where(f, c["block"]))
+            if f is ni:
+                cmp_blocks.append(c["block"])
+            elif must_pass(f, [0], [c["block"]] + list(err_return_blocks(f))):
+                cmp_blocks += [b for b, t in ni.calls() if fx.local_callee(t) is f]
+        # every replayed return passes the comparison
+        okret = [b for b, i, adt, var, fl, ops, s_ in aggregates(ni) if adt.endswith("result::Result") and var == "Ok"]
+        ctx.check(bool(cmp_blocks) and must_pass(ni, inc_total, cmp_blocks, to_blocks=okret), "DOM", "C08:DOM:total:before-delivery", "no replayed event is delivered without the total check",
+                  "a replayed event can be delivered without passing the total-replayed check", config, ctx.where(ni))
         # ... and every replayed delivery is counted at all: the replay-only site (the budget re-observation of a replayed
         # event, which C07:REPLAY shows every replayed delivery passes) is unreachable on paths that avoid the increment / the comparison
-        replay_sites = [b for b, t in ni.calls() if fx.callee(t) == LE + "::observe_budget_for_replay"]
+        replay_sites = lifted(fx, ni, lambda g, b, t: fx.callee(t) == LE + "::observe_budget_for_replay", same_adt=LE)
         ctx.floor("DOM.replay-sites", len(replay_sites), 1, config)
-        cmp_blocks = [c["block"] for f, c, rej in seen["self.alias_limits.max_total_replayed_events"] if f is ni]
         for what, gate in (("counted", inc_total), ("compared with the limit", cmp_blocks)):
             free = ni.reachable([0], avoid=gate) if gate else set(ni.live_blocks)
             leak = [b for b in replay_sites if b in free]
@@ -79,23 +90,35 @@ def run(ctx):
         # recording frames, replay frames and anchor buffers do not outlive their document — also when a document is abandoned
         # after an error: a frame left open clones every later event of the stream into itself (shared rule, C11)
         C11.rule_reset(ctx, fx, config)
-        # WHO-WRITES: the alias counters
+        # WHO-WRITES: the alias counters.  They *advance* only in the pump (or a private helper of the event source that only the
+        # pump calls) and are *cleared* (a constant written) only by the document reset.
         for fld in ("total_replayed_events", "per_anchor_expansions"):
-            writers = set()
+            advancers, clearers = set(), set()
             for f in fx.fns.values():
                 for b, i, s_ in f.stmts():
                     if s_["k"] == "assign" and s_["p"]["pr"]:
                         r = render(f.sym_place(s_["p"]))
                         if r == "self." + fld or r.startswith("self.%s[" % fld):
-                            writers.add(f.npath)
+                            v = f.sym_rvalue(s_["rv"])
+                            (clearers if v[0] == "const" else advancers).add(f.npath)
                 for b, t in f.calls():
                     for a in t["args"]:
                         pl = a.get("mv") or a.get("cp")
                         if pl is not None and not pl["pr"] and f.local_ty(pl["l"]).startswith("&mut ") and render(f.sym_operand(a)) == "self." + fld and (f.d.get("impl_adt") == LE):
-                            writers.add(f.npath)
-            allowed = {LE + "::next_impl", LE + "::reset_document_state"}
-            ctx.check(writers and writers <= allowed, "WHO-WRITES", "C08:WHO-WRITES:%s" % fld, "`%s` is written only by the pump and the document reset" % fld,
-                      "`%s` is also written by %s: the counter can be cleared / altered outside a document boundary" % (fld, sorted(writers - allowed)), config, ctx.where(ni))
+                            (clearers if last_seg(fx.callee(t)) in ("clear", "fill", "truncate", "take") else advancers).add(f.npath)
+            allowed = {LE + "::next_impl"}
+            grew = True
+            while grew:
+                grew = False
+                for w in sorted(advancers - allowed):
+                    cs = {g.npath for g, _b in fx.callers.get(w, [])}
+                    wf = fx.fn_opt(w)
+                    if cs and cs <= allowed and wf is not None and wf.d.get("impl_adt") == LE:
+                        allowed.add(w)
+                        grew = True
+            okw = bool(advancers | clearers) and advancers <= allowed | {LE + "::reset_document_state"} and clearers <= {LE + "::reset_document_state"}
+            ctx.check(okw, "WHO-WRITES", "C08:WHO-WRITES:%s" % fld, "`%s` advances only in the pump and is cleared only by the document reset" % fld,
+                      "`%s` is also written by %s: the counter can be cleared / altered outside a document boundary" % (fld, sorted((advancers - allowed - {LE + "::reset_document_state"}) | (clearers - {LE + "::reset_document_state"}))), config, ctx.where(ni))
         # WHO-PULLS: parser pulls and parser construction
         pullers = {f.npath for f in fx.fns.values() for b, t in f.calls() if fx.callee(t) == "live_events::SaphyrParser::next"}
         ctx.check(pullers <= {LE + "::next_impl", LE + "::skip_to_next_document"} and pullers, "WHO-PULLS", "C08:WHO-PULLS:parser",
